@@ -35,3 +35,70 @@ fn second_dump_of_a_reused_writer_equals_a_fresh_one() {
         rf.len()
     );
 }
+
+fn tids_of(pid: i32) -> Vec<i32> {
+    let mut t: Vec<i32> = std::fs::read_dir(format!("/proc/{pid}/task")).unwrap()
+        .map(|e| e.unwrap().file_name().to_string_lossy().parse().unwrap()).collect();
+    t.sort_unstable();
+    t
+}
+
+/// (exception thread id, rva of the exception's context, rva of that thread's context in the thread list)
+fn exception_vs_thread_list(bytes: &[u8], tid: i32) -> (u32, u32, u32) {
+    let dump = Minidump::read(bytes).expect("Failed to read minidump");
+    let exc: MinidumpException = dump.get_stream().expect("no exception stream");
+    let threads: MinidumpThreadList = dump.get_stream().expect("no thread list");
+    let t = threads.get_thread(tid as u32).expect("blamed thread in the thread list");
+    (exc.raw.thread_id, exc.raw.thread_context.rva, t.raw.thread_context.rva)
+}
+
+fn stacks_kept(bytes: &[u8]) -> usize {
+    let dump = Minidump::read(bytes).expect("Failed to read minidump");
+    let threads: MinidumpThreadList = dump.get_stream().expect("no thread list");
+    threads.threads.iter().filter(|t| t.raw.stack.memory.data_size > 0).count()
+}
+
+/// The blamed thread changes between two dumps of one writer (no crash context): the exception stream of the
+/// second dump must point at the context the SECOND dump recorded for the newly blamed thread.
+#[test]
+fn reused_writer_with_another_blamed_thread() {
+    let mut child = start_child_and_wait_for_threads(4);
+    let pid = child.id() as i32;
+    let other = *tids_of(pid).last().unwrap();
+    assert_ne!(other, pid);
+    let mut w = MinidumpWriter::new(pid, pid);
+    let _first = w.dump(&mut std::io::Cursor::new(Vec::new())).expect("dump 1");
+    w.blamed_thread = other;
+    let second = w.dump(&mut std::io::Cursor::new(Vec::new())).expect("dump 2");
+    child.kill().expect("Failed to kill process");
+    child.wait().expect("Failed to wait on killed process");
+    let (tid, exc_ctx, list_ctx) = exception_vs_thread_list(&second, other);
+    assert_eq!(tid, other as u32);
+    assert_eq!(exc_ctx, list_ctx, "the second dump's exception stream refers to a context recorded by the first dump");
+}
+
+/// The principal mapping resolved by the first dump must not survive into a second dump whose principal
+/// address resolves to nothing: a fresh writer then drops every stack.
+#[test]
+fn reused_writer_with_unresolvable_principal_address() {
+    let mut child = start_child_and_wait_for_threads(3);
+    let pid = child.id() as i32;
+    // an address inside the child's executable
+    let maps = std::fs::read_to_string(format!("/proc/{pid}/maps")).unwrap();
+    let exe_line = maps.lines().find(|l| l.contains("r-xp") && l.contains('/')).expect("an executable file mapping");
+    let start = usize::from_str_radix(exe_line.split('-').next().unwrap(), 16).unwrap();
+    let mut w = MinidumpWriter::new(pid, pid);
+    w.skip_stacks_if_mapping_unreferenced();
+    w.set_principal_mapping_address(start + 16);
+    let _first = w.dump(&mut std::io::Cursor::new(Vec::new())).expect("dump 1");
+    w.set_principal_mapping_address(0x0102_0304_0506_0708);
+    let second = w.dump(&mut std::io::Cursor::new(Vec::new())).expect("dump 2");
+    let mut fresh = MinidumpWriter::new(pid, pid);
+    fresh.skip_stacks_if_mapping_unreferenced();
+    fresh.set_principal_mapping_address(0x0102_0304_0506_0708);
+    let fresh = fresh.dump(&mut std::io::Cursor::new(Vec::new())).expect("fresh dump");
+    child.kill().expect("Failed to kill process");
+    child.wait().expect("Failed to wait on killed process");
+    assert_eq!(stacks_kept(&fresh), 0, "sanity: no principal mapping, every stack is dropped");
+    assert_eq!(stacks_kept(&second), 0, "the principal mapping of the first dump leaked into the second one");
+}
